@@ -183,6 +183,26 @@ def _worker(fn, cases, idxs, wfd, errpath):
     cov_dump()
     os._exit(0)
 
+_TICK = float(os.sysconf('SC_CLK_TCK'))
+def _tree_cpu(pid, depth=0):
+    """(CPU seconds consumed so far by pid, its reaped children and its live descendants; whether any of them is runnable)"""
+    try:
+        f = open('/proc/%d/stat' % pid).read()
+        rest = f[f.rindex(')') + 2:].split()
+        cpu = (int(rest[11]) + int(rest[12]) + int(rest[13]) + int(rest[14])) / _TICK
+        run = rest[0] in 'RD'
+        if depth < 6:
+            for t in os.listdir('/proc/%d/task' % pid):
+                try:
+                    for c in open('/proc/%d/task/%s/children' % (pid, t)).read().split():
+                        a, b = _tree_cpu(int(c), depth + 1)
+                        cpu += a; run = run or b
+                except OSError:
+                    pass
+        return cpu, run
+    except (OSError, ValueError, IndexError):
+        return 0.0, False
+
 def pmap(fn, cases, nproc=None, case_timeout=120, on_result=None):
     """apply fn to every case in forked workers.  A worker that dies (signal, abort, sanitizer report)
     or hangs marks the case it was executing as {'crash': ...} and the rest of its share is continued by
@@ -249,7 +269,7 @@ def pmap(fn, cases, nproc=None, case_timeout=120, on_result=None):
             while len(w['buf']) >= 12:
                 i, ln = struct.unpack('<qI', w['buf'][:12])
                 if ln == 0:
-                    w['cur'] = i; w['buf'] = w['buf'][12:]; continue
+                    w['cur'] = i; w['buf'] = w['buf'][12:]; w['cpu0'] = _tree_cpu(w['pid'])[0]; continue
                 if len(w['buf']) < 12 + ln:
                     break
                 results[i] = pickle.loads(w['buf'][12:12 + ln])
@@ -257,8 +277,24 @@ def pmap(fn, cases, nproc=None, case_timeout=120, on_result=None):
                 w['buf'] = w['buf'][12 + ln:]
                 w['done'] += 1; w['cur'] = None
         for r in list(workers):
-            if now - workers[r]['t'] > case_timeout:
+            w = workers[r]
+            if now - w['t'] <= case_timeout:
+                w.pop('probe', None); continue
+            # past the wall-clock limit.  "Does not return" must not depend on how busy the machine is: a case is a hang when its
+            # process tree has BURNT at least half the limit in CPU time (busy loop), or has made no CPU progress for 10 s with nothing
+            # runnable (blocked), or has passed eight times the limit; a starved but progressing case is given more time.
+            cpu, runnable = _tree_cpu(w['pid'])
+            used = cpu - w.get('cpu0', 0.0)
+            pr = w.get('probe')
+            if used >= 0.5 * case_timeout or now - w['t'] > 8 * case_timeout:
                 finish_worker(r, 'timeout')
+            elif pr is None:
+                w['probe'] = (now, cpu)
+            elif now - pr[0] >= 10:
+                if cpu - pr[1] < 0.05 and not runnable:
+                    finish_worker(r, 'timeout')
+                else:
+                    w['probe'] = (now, cpu)
     try:
         for f in os.listdir(tmpd):
             os.unlink(os.path.join(tmpd, f))
